@@ -14,7 +14,8 @@ From JV Require Import Lib.Base Lib.C15Val.
 Inductive ty := TInt | TStr | TListInt | TAny.
 Inductive kind := KPlain (t : ty) | KClass | KClassList.
 
-Record decl := { d_key : key; d_kind : kind; d_default : val; d_required : bool }.
+(* d_alias: the argument was declared with a second option string (add_argument("--b", "--b_alt") / ("--b", "-B")) *)
+Record decl := { d_key : key; d_kind : kind; d_default : val; d_required : bool; d_alias : bool }.
 (* a class of the generated module: name and __init__ parameters (None default = required parameter) *)
 Record cls := { c_name : str; c_params : list (str * ty * option val) }.
 
@@ -304,7 +305,8 @@ Definition finish (p : parser) (pre : val) : res val :=
 
 (* ---------------------------------------------------------------- collecting the sources *)
 
-Inductive item := Opt (k : key) (v : val) | Cfg (m : val).
+(* Opt: the first option string of the argument with dest k; OptAlias: its second spelling *)
+Inductive item := Opt (k : key) (v : val) | OptAlias (k : key) (v : val) | Cfg (m : val).
 Inductive input :=
 | InArgs (env : list (key * val)) (argv : list item)
 | InObject (env : list (key * val)) (obj : val).
@@ -387,6 +389,18 @@ Fixpoint parse_argv (p : parser) (cfg : val) (argv : list item) : res val :=
           | Some t => if accepts t v then parse_argv p (set cfg k v) argv' else Err EOther
           end
       end
+  | OptAlias k v :: argv' =>
+      (* ActionLink.__init__ re-points EVERY option string of the replaced target action at the link action *)
+      match find_act (p_acts p) k with
+      | None => Err EOther
+      | Some (d, linked) =>
+          if negb (d_alias d) then Err EOther          (* unrecognized argument *)
+          else if linked then Err ELinked
+          else match plain_ty d with
+               | None => Err EUnmodelled
+               | Some t => if accepts t v then parse_argv p (set cfg k v) argv' else Err EOther
+               end
+      end
   | Cfg m :: argv' =>
       match apply_cfg p cfg m with
       | Err e => Err e
@@ -428,6 +442,7 @@ Definition uses_linked_option (p : parser) (x : input) : bool :=
   | InArgs _ argv =>
       existsb (fun it => match it with
                          | Opt k _ => match find_act (p_acts p) k with Some (_, true) => true | _ => false end
+                         | OptAlias k _ => match find_act (p_acts p) k with Some (d, true) => d_alias d | _ => false end
                          | Cfg _ => false
                          end) argv
   | InObject _ _ => false
